@@ -59,7 +59,7 @@ class AttrsModelCodeGenerator(GenericModelCodeGenerator):
                 body_kwargs["default"] = "None"
                 if isclass(meta.type) and issubclass(meta.type, StringSerializable) and not self.post_init_converters:
                     body_kwargs["converter"] = f"optional({meta.type.__name__})"
-                    imports.append(("attr.converter", "optional"))
+                    imports.append(("attr.converters", "optional"))
         elif isclass(meta) and issubclass(meta, StringSerializable) and not self.post_init_converters:
             body_kwargs["converter"] = meta.__name__
 
